@@ -187,10 +187,33 @@ Section CRYPT.
       pose proof (len_nonneg p). lia.
   Qed.
 
-  Notation handler := (crypt_handler aes_ok E D b64enc b64dec).
+  Variable ulfix : bool.
+  Notation handler := (crypt_handler ulfix aes_ok E D b64enc b64dec).
+
+  Lemma decrypt_and_serve_honest : forall key p c resp,
+    aes_ok key = true -> ecb_encrypt aes_ok E key p = Ok c ->
+    decrypt_and_serve aes_ok E D b64enc b64dec key (b64enc c) resp
+    = mkHout true 200 p (flush aes_ok E b64enc key resp) false.
+  Proof.
+    intros key p c resp K Ec.
+    destruct (ecb_decrypt_encrypt key p K) as (c' & E1 & E2 & NE).
+    rewrite Ec in E1. inversion E1; subst c'.
+    unfold decrypt_and_serve. rewrite b64_roundtrip, E2. reflexivity.
+  Qed.
+
+  Lemma honest_wire_nonempty : forall key p c,
+    aes_ok key = true -> ecb_encrypt aes_ok E key p = Ok c -> 0 < len (b64enc c).
+  Proof.
+    intros key p c K Ec.
+    destruct (ecb_decrypt_encrypt key p K) as (c' & E1 & E2 & NE).
+    rewrite Ec in E1. inversion E1; subst c'.
+    pose proof (b64_nonempty c NE) as X. unfold len.
+    destruct (b64enc c); [congruence|cbn; lia].
+  Qed.
 
   (* request side: an encrypted body of known length within the limit reaches the route
-     handler decrypted; response side: what is sent decrypts to what the handler wrote *)
+     handler decrypted (with or without the unknown-length repair); response side: what is
+     sent decrypts to what the handler wrote *)
   Lemma body_roundtrip_request : forall limit key p c resp,
     aes_ok key = true -> ecb_encrypt aes_ok E key p = Ok c ->
     let wire := b64enc c in
@@ -198,16 +221,34 @@ Section CRYPT.
     handler limit key (len wire) wire resp = mkHout true 200 p (flush aes_ok E b64enc key resp) false.
   Proof.
     intros limit key p c resp K Ec wire Hl.
-    destruct (ecb_decrypt_encrypt key p K) as (c' & E1 & E2 & NE).
-    rewrite Ec in E1. inversion E1; subst c'.
-    assert (W : 0 < len wire).
-    { unfold wire. pose proof (b64_nonempty c NE) as X. unfold len.
-      destruct (b64enc c); [congruence|cbn; lia]. }
+    assert (W : 0 < len wire) by (apply (honest_wire_nonempty key p c K Ec)).
     unfold crypt_handler.
-    replace (len wire <=? 0) with false by (symmetry; apply Z.leb_gt; lia).
+    replace (if ulfix then len wire =? 0 else len wire <=? 0) with false.
+    2:{ symmetry. destruct ulfix; [apply Z.eqb_neq|apply Z.leb_gt]; lia. }
+    replace (0 <? len wire) with true by (symmetry; apply Z.ltb_lt; lia).
     replace ((0 <? limit) && (limit <? len wire)) with false.
     2:{ symmetry. apply andb_false_iff. destruct Hl; [left; apply Z.ltb_ge; lia|right; apply Z.ltb_ge; lia]. }
-    unfold wire. rewrite b64_roundtrip, E2. reflexivity.
+    replace (len wire <? len wire) with false by (symmetry; apply Z.ltb_irrefl).
+    unfold len. rewrite Nat2Z.id, firstn_all.
+    apply decrypt_and_serve_honest; auto.
+  Qed.
+
+  (* the same for a body of UNKNOWN length (ContentLength = -1, chunked) once the repair is in *)
+  Lemma body_roundtrip_unknown_length : forall limit key p c resp,
+    ulfix = true ->
+    aes_ok key = true -> ecb_encrypt aes_ok E key p = Ok c ->
+    let wire := b64enc c in
+    (limit <= 0 \/ len wire <= limit) ->
+    handler limit key (-1) wire resp = mkHout true 200 p (flush aes_ok E b64enc key resp) false.
+  Proof.
+    intros limit key p c resp U K Ec wire Hl.
+    assert (W : 0 < len wire) by (apply (honest_wire_nonempty key p c K Ec)).
+    unfold crypt_handler. rewrite U.
+    change (-1 =? 0) with false. change (0 <? -1) with false. cbv iota.
+    replace ((0 <? limit) && (limit <? len wire)) with false.
+    2:{ symmetry. apply andb_false_iff. destruct Hl; [left; apply Z.ltb_ge; lia|right; apply Z.ltb_ge; lia]. }
+    destruct wire eqn:WE; [cbn in W; lia|]. rewrite <- WE. unfold wire.
+    apply decrypt_and_serve_honest; auto.
   Qed.
 
   Lemma body_roundtrip_response : forall key resp,
@@ -220,24 +261,36 @@ Section CRYPT.
     exists c. unfold flush. destruct resp; [congruence|]. rewrite E1. auto.
   Qed.
 
-  (* no request can make the handler panic (with the repaired unpadding) *)
-  Lemma handler_never_panics : forall limit key clen wire resp,
-    o_panic (handler limit key clen wire resp) = false.
+  Lemma decrypt_and_serve_no_panic : forall key content resp,
+    o_panic (decrypt_and_serve aes_ok E D b64enc b64dec key content resp) = false.
   Proof.
-    intros. unfold crypt_handler.
-    destruct (clen <=? 0); [reflexivity|].
-    destruct ((0 <? limit) && (limit <? clen)); [reflexivity|].
-    destruct (b64dec wire) as [ct|]; [|reflexivity].
+    intros. unfold decrypt_and_serve.
+    destruct (b64dec content) as [ct|]; [|reflexivity].
     destruct (ecb_decrypt aes_ok D key ct) eqn:X; try reflexivity.
     exfalso. unfold ecb_decrypt in X. destruct (aes_ok key); [|discriminate].
     apply unpad_total in X. exact X.
   Qed.
 
-  (* unknown length (chunked): the body is handed over as it came *)
+  (* no request can make the handler panic (with the repaired unpadding) *)
+  Lemma handler_never_panics : forall limit key clen wire resp,
+    o_panic (handler limit key clen wire resp) = false.
+  Proof.
+    intros. unfold crypt_handler.
+    destruct (if ulfix then clen =? 0 else clen <=? 0); [reflexivity|].
+    destruct (0 <? clen).
+    - destruct ((0 <? limit) && (limit <? clen)); [reflexivity|].
+      destruct (len wire <? clen); [reflexivity|]. apply decrypt_and_serve_no_panic.
+    - destruct ((0 <? limit) && (limit <? len wire)); [reflexivity|].
+      destruct wire; [reflexivity|]. apply decrypt_and_serve_no_panic.
+  Qed.
+
+  (* unknown length (chunked) WITHOUT the repair: the body is handed over as it came *)
   Lemma unknown_length_passthrough : forall limit key clen wire resp,
+    ulfix = false ->
     clen <= 0 -> o_seen (handler limit key clen wire resp) = wire.
   Proof.
-    intros. unfold crypt_handler. replace (clen <=? 0) with true by (symmetry; apply Z.leb_le; lia).
+    intros limit key clen wire resp U H. unfold crypt_handler. rewrite U.
+    replace (clen <=? 0) with true by (symmetry; apply Z.leb_le; lia).
     reflexivity.
   Qed.
 End CRYPT.
